@@ -154,6 +154,9 @@ class Explorer:
                 else:
                     env[l] = dv
                 continue
+            if st[2][0] == "ref" and not st[2][2][1] and isinstance(env.get(st[2][2][0]), str):
+                env[l] = ("ref", st[2][2][0])     # &tagged_local, for is_ok()/is_err()/is_some()/is_none()
+                continue
             if l not in self.bool_locals:
                 # enum-variant tags ("Some", "None", "Ok", "BlockAddedSuccessfully", ...) for non-bool locals
                 tag = self._tag(st[2], env)
@@ -212,9 +215,31 @@ class Explorer:
             return [(s, env) for s in self.body.succ(bb)]
         if k == "call":
             d = t["dest"]
-            if not d[1] and d[0] in env and d[0] not in self.fixed_locals:
-                env = dict(env)
-                env.pop(d[0], None)
+            if not d[1] and d[0] not in self.fixed_locals:
+                tag = None
+                cal = (t.get("callee") or "")
+                PRED = {"std::result::Result::<T, E>::is_err": ("Err",), "std::result::Result::<T, E>::is_ok": ("Ok",),
+                        "std::option::Option::<T>::is_some": ("Some",), "std::option::Option::<T>::is_none": ("None",)}
+                if cal in PRED and t["args"]:
+                    a = op_local(t["args"][0])
+                    r = env.get(a) if a is not None else None
+                    if isinstance(r, tuple) and r[0] == "ref" and isinstance(env.get(r[1]), str):
+                        tag = env[r[1]] in PRED[cal]
+                    elif isinstance(r, str):
+                        tag = r in PRED[cal]
+                if (t.get("callee") or "").endswith("FromResidual::from_residual"):
+                    # the `?` operator's early return: Err(..) for Result, None for Option
+                    ty = self.body.ty(d[0])
+                    if ty.get("d") == "std::result::Result":
+                        tag = "Err"
+                    elif ty.get("d") == "std::option::Option":
+                        tag = "None"
+                if tag is not None:
+                    env = dict(env)
+                    env[d[0]] = tag
+                elif d[0] in env:
+                    env = dict(env)
+                    env.pop(d[0], None)
             return [(t["t"], env)] if t.get("t") is not None else []
         if k == "yield":
             return [(t["t"], env)]
